@@ -929,6 +929,16 @@ func (env *SpecEnv) evalNamedCall(name string, x *ast.CallExpr) *Val {
 		return &Val{T: intT, S: "(sl_ref " + arg(0).S + ")"}
 	case "off":
 		return &Val{T: intT, S: "(sl_off " + arg(0).S + ")"}
+	case "heapsnap":
+		// heapsnap(s): the current contents of the element heap of slice s (all slices of that element type);
+		// only usable as an argument of an uninterpreted specification function, to make it state-dependent
+		v := arg(0)
+		sl, ok := v.T.Underlying().(*types.Slice)
+		if !ok || isByteSeq(v.T) {
+			return env.fail("heapsnap: argument must be a non-byte slice")
+		}
+		hn, hs := env.eng.elemHeap(sl.Elem())
+		return &Val{T: intT, S: env.s.heap(hn, hs), RawSort: hs}
 	}
 	// uninterpreted specification functions: ufBool_x / ufInt_x / ufBytes_x (declared on demand)
 	for pfx, rs := range map[string]string{"ufBool_": "Bool", "ufInt_": "Int", "ufBytes_": "(Seq Int)"} {
@@ -937,7 +947,11 @@ func (env *SpecEnv) evalNamedCall(name string, x *ast.CallExpr) *Val {
 			for i := range x.Args {
 				v := arg(i)
 				as = append(as, v.S)
-				sorts = append(sorts, env.eng.sortOf(v.T))
+				if v.RawSort != "" {
+					sorts = append(sorts, v.RawSort)
+				} else {
+					sorts = append(sorts, env.eng.sortOf(v.T))
+				}
 			}
 			if _, ok := env.eng.syms.syms[name]; !ok {
 				env.eng.syms.add(name, fmt.Sprintf("(declare-fun %s (%s) %s)", name, strings.Join(sorts, " "), rs))
@@ -1039,7 +1053,28 @@ func (env *SpecEnv) applyFunc(f *types.Func, recv *Val, argExprs []ast.Expr) *Va
 			return &Val{T: boolT, S: "true"}
 		}
 		c.Used = true
-		return &Val{T: f.Type().(*types.Signature).Results().At(0).Type(), S: v.S}
+		res := &Val{T: f.Type().(*types.Signature).Results().At(0).Type(), S: v.S}
+		if env.quant == 0 && env.side != nil && len(c.Ensures) > 0 {
+			// outside quantifiers the postconditions of this instance are available too (requires ==> ensures)
+			_, resNames := env.eng.contractNames(c, f, recv, fargs)
+			fnames["result"] = res
+			if len(resNames) > 0 && resNames[0] != "" {
+				fnames[resNames[0]] = res
+			}
+			var pre, post []string
+			for _, r := range c.Requires {
+				pre = append(pre, sub.evalBool(r.E))
+			}
+			for _, r := range c.Ensures {
+				post = append(post, sub.evalBool(r.E))
+			}
+			if sub.err != nil {
+				env.err = fmt.Errorf("in contract of %s: %v", c.Key, sub.err)
+				return res
+			}
+			*env.side = append(*env.side, implies(and(pre...), and(post...)))
+		}
+		return res
 	}
 	if env.quant > 0 {
 		return env.fail("function %s applied under a quantifier (use a pred)", funcKey(f))
